@@ -209,9 +209,9 @@ def cards_part(run, bulk):
             after = tl[2 + nlines] if len(tl) > 2 + nlines else ""
             if not mine[0].startswith("TGT") or not after.startswith("TGT") or any(not ln.startswith(("+", "*")) for ln in mine[1:]) \
                     or any(len(ln) > 80 for ln in mine):
-                run.violation("%s: card of %d fields is not laid out on %d lines with continuation marks (spec NLines)" % (wname, len(kinds), nlines),
-                              dict(case, text=mine), {"fn": wname})
-                continue
+                # how many lines a card takes is a layout choice: the property asks that it is read back field for field (below)
+                run.deviation("NasCard.NLines", "%s: card of %d fields is not laid out on %d lines with continuation marks" % (wname, len(kinds), nlines),
+                              dict(case, text=mine))
             try:
                 got = bulk.rdcards(io.StringIO(text), "tgt", return_var="list")
             except Exception as ex:
@@ -340,17 +340,28 @@ def include_part(run, bulk):
                     fh.write(render(f, items))
             run.case(("include", json.dumps([c1, c2])), part="INCLUDE trees")
             tags = {"kind": "include", "forms": sorted({it[2] for it in c1 + c2 if it[0] == "inc"}), "split": any(it[0] == "inc" and it[3] for it in c1 + c2)}
+            want_own = [100 + i for i, it in enumerate(c1, 1) if it[0] in ("card", "long")]
             try:
-                got = bulk.rdcards(paths[1], "cardx", return_var="list", include_symbols={"SYM": os.path.join(root, "sub")})
                 own = bulk.rdcards(paths[1], "cardx", return_var="list", follow_includes=False)
             except Exception as ex:
-                run.violation("rdcards raised %r on an INCLUDE tree" % ex, {"main": c1, "f2": c2, "expected": want}, tags)
+                run.violation("rdcards(follow_includes=False) raised %r on a file with INCLUDE lines" % ex, {"main": c1}, tags)
+                continue
+            try:
+                got = bulk.rdcards(paths[1], "cardx", return_var="list", include_symbols={"SYM": os.path.join(root, "sub")})
+            except Exception as ex:
+                # the file's own cards are read (above): the failure is in how an INCLUDE line is resolved - a rule of the growth
+                # spec, not of the property (number fields, cards)
+                run.deviation("BulkInclude", "rdcards raised %r on an INCLUDE tree (path forms %s%s)" % (ex, tags["forms"], ", quoted name split over lines" if tags["split"] else ""),
+                              {"main": c1, "f2": c2, "expected": want})
                 continue
             ids = [int(c[0]) for c in (got or [])]
             if ids != list(want):
-                run.violation("rdcards over INCLUDE files delivered cards %s, expected (depth-first, each INCLUDE expanded in place) %s" % (ids, list(want)),
-                              {"main": c1, "f2": c2}, tags)
-            want_own = [100 + i for i, it in enumerate(c1, 1) if it[0] in ("card", "long")]
+                if [k for k in ids if k // 100 == 1] != [k for k in want if k // 100 == 1]:
+                    run.violation("rdcards lost / duplicated / reordered the cards of the file itself around its INCLUDE lines: delivered %s, the file holds %s"
+                                  % ([k for k in ids if k // 100 == 1], [k for k in want if k // 100 == 1]), {"main": c1, "f2": c2}, tags)
+                else:
+                    run.deviation("BulkInclude", "rdcards over INCLUDE files delivered cards %s, the spec (depth-first, each INCLUDE expanded in place) says %s"
+                                  % (ids, list(want)), {"main": c1, "f2": c2})
             if [int(c[0]) for c in (own or [])] != want_own:
                 run.violation("rdcards(follow_includes=False) delivered %s, expected the file's own cards %s" % ([int(c[0]) for c in (own or [])], want_own),
                               {"main": c1}, tags)
